@@ -2,12 +2,14 @@ use crate::engine::{Report, Tier};
 
 pub mod c03;
 pub mod c04;
+pub mod c11;
 pub mod c12;
 
 pub fn run(id: &str, tier: Tier) -> Option<Report> {
     Some(match id {
         "C03" => c03::run(tier),
         "C04" => c04::run(tier),
+        "C11" => c11::run(tier),
         "C12" => c12::run(tier),
         _ => return None,
     })
@@ -38,6 +40,7 @@ pub fn replay(path: &str) -> i32 {
     let res = match id {
         "C03" => c03::replay(case),
         "C04" => c04::replay(case),
+        "C11" => c11::replay(case),
         "C12" => c12::replay(case),
         _ => {
             eprintln!("no replay for property {id}");
